@@ -780,6 +780,24 @@ def executable_lines(relpath):
     return sorted(body)
 
 
+def exc_locals(ex):
+    """Scalar locals of the innermost aquacrop frame of an exception (witness for aborts)."""
+    tb = ex.__traceback__
+    fr = None
+    while tb is not None:
+        fn = tb.tb_frame.f_code.co_filename
+        if "/aquacrop/" in fn and "/vf/" not in fn:
+            fr = tb.tb_frame
+        tb = tb.tb_next
+    if fr is None:
+        return {}
+    out = {}
+    for k, v in list(fr.f_locals.items())[:40]:
+        if isinstance(v, (bool, int, float, np.integer, np.floating)):
+            out[k] = float(v)
+    return out
+
+
 def exc_site(ex):
     """Innermost aquacrop frame of an exception: (module, function, line, text)."""
     tb = traceback.extract_tb(ex.__traceback__)
